@@ -151,6 +151,7 @@ def check(pid, tier, seed):
     jobs = job_list(pid, tier, seed)
     corpus = corpus_jobs()
     DEADLINE[0] = time.time() + BUDGET_S.get(tier, 420)
+    gen.DEADLINE[0] = DEADLINE[0]
     with multiprocessing.Pool(min(16, max(1, len(jobs)))) as pool:
         results = pool.map(run_job, jobs, chunksize=1)
     results = run_corpus(corpus) + results
@@ -397,6 +398,7 @@ def check_all(tier, seed, scale=1.0):
             jobs.append((prof, v, seed * 1000003 + n, opts))
             n += 1
     DEADLINE[0] = time.time() + BUDGET_S.get(tier, 420)
+    gen.DEADLINE[0] = DEADLINE[0]
     with multiprocessing.Pool(16) as pool:
         results = pool.map(run_job, jobs, chunksize=1)
     results = run_corpus(corpus_jobs()) + results
